@@ -1,3 +1,10 @@
 module gotrans
 
 go 1.23
+
+require golang.org/x/tools v0.29.0
+
+require (
+	golang.org/x/mod v0.22.0 // indirect
+	golang.org/x/sync v0.10.0 // indirect
+)
